@@ -208,6 +208,9 @@ def _check_parity(case, distinct):
         tags.append("selected_not_min_error")
     if any(type(p).__name__ == "DummyClassifier" for p in gs.predictors_):
         tags.append("dummy_used")
+        if any(type(p).__name__ == "DummyClassifier" and
+               float(np.max(np.abs(P.gamma(np.asarray(p.predict(X)))))) > 1e-9 for p in gs.predictors_):
+            tags.append("dummy_with_nonzero_gamma")  # a constant classifier that still violates parity (ratio < 1, error-rate parity)
     if grid_size >= 20:
         tags.append("grid>=20")
     return tags
@@ -337,12 +340,39 @@ def _with_grid(draw, case):
     case["grid_size"] = draw(_grid_size)
     case["grid_limit"] = draw(_grid_limit)
     case["cw"] = draw(_cw)
+    # error-rate parity with a wide grid is where single-label relabelled problems (DummyClassifier) meet
+    # constant classifiers that still violate parity: make that corner frequent
+    if case.get("moment") == "ErrorRateParity" and draw(st.integers(0, 2)) > 0:
+        case["grid_limit"] = draw(st.sampled_from([2.0, 3.0, 5.0]))
+        case["grid_size"] = max(case["grid_size"], 10)
     return case
 
 
 @st.composite
 def _parity_cases(draw):
     return _with_grid(draw, draw(R.reduction_data(min_groups=2, max_groups=4, pairs="complete")))
+
+
+@st.composite
+def _wide_grid_cases(draw):
+    """Wide grids on error-rate parity / ratio bounds: some relabelled problems become single-label
+    (DummyClassifier) while the constant classifier still violates parity (class dummy_with_nonzero_gamma)."""
+    case = draw(R.reduction_data(min_groups=2, max_groups=3, pairs="complete"))
+    if draw(st.booleans()):
+        case["moment"] = "ErrorRateParity"
+    else:
+        case["bound"] = {"kind": "ratio", "ratio": draw(st.sampled_from([0.5, 0.7, 0.9])), "slack": draw(st.sampled_from([0.0, 0.02]))}
+    case["grid_size"] = draw(st.integers(10, 40))
+    case["grid_limit"] = draw(st.sampled_from([3.0, 5.0, 5.0]))
+    case["cw"] = draw(_cw)
+    if case["moment"] in ("ErrorRateParity", "DemographicParity") and draw(st.integers(0, 3)) > 0:
+        # labels largely determined by the group: a multiplier on one group then flips all of its rows and the
+        # relabelled problem has a single label
+        g0 = case["groups"][0]
+        case["y"] = [int((g == g0) != (draw(st.integers(0, 5)) == 0)) for g in case["groups"]]
+        if len(set(case["y"])) < 2:
+            case["y"][0] = 1 - case["y"][0]
+    return case
 
 
 @st.composite
@@ -440,10 +470,13 @@ _D11_PROBES = [
 PROBES = {"D11": [("parity", c) for c in _D11_PROBES]}
 
 SUBS = [
-    Sub("parity", check_parity, strategy=_parity_cases, quick=192, thorough=4000, shards=12, shrink_quick=False,
+    Sub("parity", check_parity, strategy=_parity_cases, quick=288, thorough=4000, shards=12, shrink_quick=False,
         floors={"nt": 0.097, "all_pairs_occur": 1.0, "predictors>=3": 0.25, "ratio<1": 0.1, "grid>=20": 0.2,
                 "m:DemographicParity": 0.08, "m:TruePositiveRateParity": 0.08, "m:FalsePositiveRateParity": 0.08,
-                "m:EqualizedOdds": 0.08, "m:ErrorRateParity": 0.08, "groups4": 0.1, "selected_not_min_error": 0.1}),
+                "m:EqualizedOdds": 0.08, "m:ErrorRateParity": 0.08, "groups4": 0.1, "selected_not_min_error": 0.1,
+                }),
+    Sub("parity_wide_grid", check_parity, strategy=_wide_grid_cases, quick=192, thorough=2000, shards=12, shrink_quick=False,
+        floors={"dummy_used": 0.08, "dummy_with_nonzero_gamma": 0.012}),
     Sub("parity_missing_pair", check_parity_missing, strategy=_missing_cases, quick=40, thorough=800, shards=4,
         shrink_quick=False, floors={"missing_pair": 1.0, "predictors>=3": 0.05}),
     Sub("bgl", check_bgl, strategy=_bgl_cases, quick=60, thorough=1200, shards=6, shrink_quick=False,
